@@ -148,6 +148,18 @@ func (fr *frame) callCommon(st *State, cc *ssa.CallCommon, args []Val, fv Val, p
 		fr.safety(st, "nil", pos, "call", u.C.Ne(recv.Tag, u.C.BVu(0, 32)))
 		key := "(" + types.TypeString(types.Unalias(cc.Value.Type()), nil) + ")." + cc.Method.Name()
 		full := append([]Val{recv}, args...)
+		// a statically known dynamic type: call the concrete method (its model is more precise)
+		if recv.Tag.IsConst() {
+			if t, ok := u.E.typeByID[int(recv.Tag.V.Int64())]; ok {
+				if fn := u.E.Prog.LookupMethod(t, cc.Method.Pkg(), cc.Method.Name()); fn != nil && (u.E.intrinsic(fn) != nil || u.E.contractFor(fn) != nil) {
+					var rv Val = recv.Ptr
+					if _, isPtr := t.Underlying().(*types.Pointer); !isPtr {
+						rv = u.load(st, recv.Ptr, t)
+					}
+					return fr.callStatic(st, fn, append([]Val{rv}, args...), nil, pos)
+				}
+			}
+		}
 		if h := u.E.intrinsics[key]; h != nil {
 			return h(fr, st, nil, full, pos)
 		}
